@@ -170,6 +170,13 @@ pub fn name_fn_arg_patterns(sig: &mut syn::Signature) {
         .collect::<Vec<_>>();
 
     for (idx, input) in sig.inputs.iter_mut().enumerate() {
+        // NOTE: `mut self` is a pattern as well
+        if let syn::FnArg::Receiver(receiver) = input
+            && receiver.reference.is_none()
+        {
+            receiver.mutability = None;
+        }
+
         if let syn::FnArg::Typed(arg) = input {
             let is_plain_ident = matches!(
                 &*arg.pat,
